@@ -59,6 +59,26 @@ def _dataclass_default(rel, cls, field):
     raise TranslateError(f"{rel}: {cls}.{field} default not found")
 
 
+def _post_init_fallback(rel, cls, field):
+    """the string assigned by `if self.<field> == "": self.<field> = r"..."` in <cls>.__post_init__ (None: no such fallback)"""
+    func = _func(_cls(rel, cls), "__post_init__")
+    found = []
+    for n in ast.walk(func):
+        if isinstance(n, ast.Assign) and len(n.targets) == 1 and isinstance(n.targets[0], ast.Attribute) \
+                and n.targets[0].attr == field and isinstance(n.targets[0].value, ast.Name) and n.targets[0].value.id == "self":
+            if not (isinstance(n.value, ast.Constant) and isinstance(n.value.value, str)):
+                raise TranslateError(f"{rel}: {cls}.__post_init__ assigns a non-literal to {field}")
+            found.append(n.value.value)
+    if len(found) > 1:
+        raise TranslateError(f"{rel}: {cls}.__post_init__ assigns {field} more than once")
+    return found[0] if found else None
+
+
+def _driver_default(param):
+    """default of BaseDriver.__init__(<param>=...) -- what every driver hands to BaseChannelArgs"""
+    return _param_default("scrapli/driver/base/base_driver.py", "BaseDriver", "__init__", param)
+
+
 def _param_default(rel, cls, func, param):
     f = _func(_cls(rel, cls), func)
     a = f.args
@@ -477,6 +497,14 @@ def loop_facts(rel, cls, fn):
             raise TranslateError(f"{rel}:{n.lineno}: {fn}: unaccounted {n.func.attr}() in the login loop")
         if isinstance(n, (ast.Delete, ast.Global, ast.Nonlocal)):
             raise TranslateError(f"{rel}:{n.lineno}: {fn}: unexpected statement in the login loop")
+        if isinstance(n, ast.Call) and isinstance(n.func, ast.Attribute) and isinstance(n.func.value, ast.Name) and n.func.value.id == "self" \
+                and n.func.attr not in ("read", "_ssh_message_handler"):
+            raise TranslateError(f"{rel}:{n.lineno}: {fn}: call of self.{n.func.attr}() inside the login loop is not modelled "
+                                 "(it may keep state outside the function)")
+        if isinstance(n, (ast.Assign, ast.AugAssign, ast.AnnAssign)):
+            tg = n.targets if isinstance(n, ast.Assign) else [n.target]
+            if any(isinstance(t, (ast.Attribute, ast.Subscript)) for t in tg):
+                raise TranslateError(f"{rel}:{n.lineno}: {fn}: the login loop assigns to an attribute / item (state that outlives the call)")
     # initial values: counters 0, buffer b"", attempts as found
     attempts0 = None
     pre = [n for n in func.body if not any(isinstance(x, ast.While) for x in ast.walk(n))]
@@ -568,13 +596,27 @@ def facts():
         "password": (_dataclass_default(BASE, "BaseChannelArgs", "auth_password_pattern"), _compile_flags("auth_password_pattern")),
         "passphrase": (_dataclass_default(BASE, "BaseChannelArgs", "auth_passphrase_pattern"), _compile_flags("auth_passphrase_pattern")),
     }
+    # the second copy of each default: drivers pass "" and BaseChannelArgs.__post_init__ substitutes a fallback
+    fallbacks = {}
+    for name, field in (("login", "auth_telnet_login_pattern"), ("password", "auth_password_pattern"), ("passphrase", "auth_passphrase_pattern")):
+        dd = _driver_default(field)
+        fb = _post_init_fallback(BASE, "BaseChannelArgs", field)
+        if dd == "":
+            if fb is None:
+                raise TranslateError(f"drivers pass {field}='' but BaseChannelArgs.__post_init__ has no fallback for it")
+            eff = fb
+        elif isinstance(dd, str):
+            eff = dd
+        else:
+            raise TranslateError(f"BaseDriver default of {field} is not a string: {dd!r}")
+        fallbacks[name] = (eff, pats[name][1])
     pf = _prompt_flags()
     prompts = {
         "chan": _dataclass_default(BASE, "BaseChannelArgs", "comms_prompt_pattern"),
         "generic": _param_default(GENERIC, "GenericDriver", "__init__", "comms_prompt_pattern"),
     }
     loops = {name: loop_facts(rel, cls, fn) for name, rel, cls, fn in LOOPS}
-    return dict(pats=pats, prompt_flags=pf, prompts=prompts, loops=loops, fatal=fatal_table(), divisor=return_divisor())
+    return dict(pats=pats, fallbacks=fallbacks, prompt_flags=pf, prompts=prompts, loops=loops, fatal=fatal_table(), divisor=return_divisor())
 
 
 def generate():
@@ -593,6 +635,12 @@ def generate():
             o += ",\n"
         o += rows[-1].split("  --")[0] + "]\n"
         o += "".join(f"-- {r.split('  -- ')[1]}\n" for r in rows)
+    o += "\n-- the patterns in effect for a channel built by a driver (drivers pass \"\"; BaseChannelArgs.__post_init__ fallback)\n"
+    for name in ("login", "password", "passphrase"):
+        src, flags = f["fallbacks"][name]
+        o += f"def {name}DriverSrc : String := {_s(src)}\n"
+        o += f"def {name}DriverBranches : List Branch := [\n" + ",\n".join(
+            f"  ⟨{_bool(bol)}, {_bool(dot)}, {_b(needle)}, {_bool(tail)}⟩" for bol, dot, needle, tail in cred_branches(src, flags)) + "]\n"
     for name in ("chan", "generic"):
         src = f["prompts"][name]
         head, lo, hi, last, trail = prompt_pat(src, f["prompt_flags"])
